@@ -39,6 +39,9 @@ CHECKS = {
  "C02": dict(cat="model_checking", ref="§3 C02",
    text="Session states at several ratchet positions and in a second session (v2, v3) × every kind of data message in flight × single deviations: every raw byte position × three xor masks, every truncation length, extensions inside and after the authenticated part, base64-level substitutions, and field substitutions (key ids, counter, next DH, flag, ciphertext) with the MAC left alone and recomputed under every MAC key disclosed on the wire so far and unrelated keys — each delivered to a clone of the receiver and judged by a reference verdict (authentic ⇔ header, authenticated body and MAC byte-identical): non-authentic ⇒ no plaintext, no reply, no TLV effect, states unchanged; authentic ⇒ delivered exactly.",
    tech="exhaustive enumeration of single-deviation forgeries per (state, message) executed on cloned receivers"),
+ "C01": dict(cat="model_checking", ref="§3 C01",
+   text="(A) An attacker that is a full protocol participant (valid MACs, own DSA key; toolbox built from the package's primitives) plays every variant {legitimate, X_B carrying V's / B's / the victim's key signed by the attacker, key id 0, trailing bytes, DH value 0, 1, p-1, p, p+1, g^m+p, replayed final message} as initiator and as responder against a victim in plaintext or in a session with B, v2 and v3. (B) Explicit-state exploration of an honest exchange (from plaintext and as refresh) under a network that within a deviation budget drops, duplicates, reorders, replays a recorded earlier session or mutates the head message, with all delivery interleavings. After every step, for every honest party that is encrypted: the reported peer key belongs to a party whose randomness source generated the in-range DH value of the session, what was reported at establishment (key, SSID, highlight) is still reported, and two honest parties of the same exchange agree (SSID, complementary halves, fingerprints, mutual readability).",
+   tech="explicit-state model checking of the implementation under a bounded-deviation network + exhaustive enumeration of attacker-built handshakes"),
 }
 NA_REASON = "check not built yet (work in progress; see DESIGN.md §3 for the planned bounded exploration)"
 def main():
